@@ -7,7 +7,7 @@
      allsem P r     P holds of every result of the exact semantics of the tree r                      *)
 From Coq Require Import Reals ZArith List Lra.
 From Interval Require Import Xreal.
-From RD Require Import Base.Expr Base.Run Model.Sampler Model.Continuous Gen.ZigTables Proofs.LawsInvCdf Proofs.Support.
+From RD Require Import Base.Expr Base.Run Model.Sampler Model.Continuous Gen.ZigTables Proofs.LawsInvCdf Proofs.Support Proofs.SupportMore.
 Import ListNotations.
 Open Scope R_scope.
 
@@ -106,6 +106,22 @@ Proof.
   split; [exact E|]. split; [exact V|]. exact (weibull_pos _ _ _ _ _ _ _ H2 E V).
 Qed.
 
+(* LogNormal > 0, FisherF >= 0, InverseGaussian > 0 (both Michael-Schucany-Haas roots) *)
+Theorem C03_lognormal_pos : forall t mu sigma ws e rest x,
+  evals (lognormal t mu sigma ws) (e, rest) -> evalX e = Xreal x -> 0 < x.
+Proof. exact lognormal_pos. Qed.
+Theorem C03_fisher_f_nonneg : forall t m n ws e rest x,
+  0 < dyR m -> 0 < dyR n -> Forall word ws ->
+  evals (fisher_f t m n ws) (e, rest) -> evalX e = Xreal x -> 0 <= x.
+Proof. exact fisher_f_nonneg. Qed.
+Theorem C03_inverse_gaussian_pos : forall t mean shape ws e rest x,
+  0 < dyR mean -> 0 < dyR shape ->
+  evals (inverse_gaussian t mean shape ws) (e, rest) -> evalX e = Xreal x -> 0 < x.
+Proof. exact inverse_gaussian_pos. Qed.
+
+Print Assumptions C03_lognormal_pos.
+Print Assumptions C03_fisher_f_nonneg.
+Print Assumptions C03_inverse_gaussian_pos.
 Print Assumptions C03_allsem_meaning.
 Print Assumptions C03_beta_in_unit.
 Print Assumptions C03_beta_in_open_unit.
